@@ -65,8 +65,10 @@ def worker_init():
     NAMES = G.module_names()
 
 
-def check_doc(T, sub, case, doc, tag_kind, profile):
-    """tag_kind: 'core' | 'special' | 'noncore'"""
+def check_doc(T, sub, case, doc, tag_kind, profile, prime=()):
+    """tag_kind: 'core' | 'special' | 'noncore'.  prime: more trusting loaders that read the same document first (monitors off):
+    the safe loaders must behave the same from that non-initial state (shared caches, leaked registrations)"""
+    _prime(doc, prime)
     for en, fam, fn in ENTRY:
         T.evaluations += 1
         if T.trace: T.begin(case)
@@ -97,6 +99,22 @@ def check_doc(T, sub, case, doc, tag_kind, profile):
             T.count('noncore-rejected-by-' + res[1])
         T.outcome((fam, res[0], res[1] if res[0] != 'ok' else type(res[1]).__name__))
     T.nontrivial += 1 if tag_kind != 'core' else 0
+
+
+PRIME_FULL = (lambda d: yaml.load(d, Loader=yaml.FullLoader),)
+PRIME_UNSAFE = (lambda d: yaml.load(d, Loader=yaml.UnsafeLoader), lambda d: yaml.load(d, Loader=yaml.FullLoader), lambda d: yaml.load(d, Loader=yaml.CUnsafeLoader))
+
+
+def _prime(doc, prime):
+    for fn in prime:
+        try:
+            fn(doc)
+        except Exception:
+            pass
+
+
+def _is_canary(name):
+    return name == 'vf_canary' or name.startswith('vf_canary.')
 
 
 def _only_str(o):
@@ -144,7 +162,7 @@ def run_job(job, T):
         for kn, ktext in G.KINDS:
             for c in CONTEXTS:
                 doc = G.in_context(c, '%s %s' % (tag, ktext))
-                check_doc(T, 'structural', {'doc': doc, 'tag': tag, 'kind': kn, 'context': c}, doc, tk, profile=True)
+                check_doc(T, 'structural', {'doc': doc, 'tag': tag, 'kind': kn, 'context': c}, doc, tk, profile=True, prime=PRIME_FULL)
         T.sample('structural', {'doc': doc})
     elif kind == 'canary':
         prefix = G.PY_PREFIX[job[1]]
@@ -156,7 +174,8 @@ def run_job(job, T):
             for kn, ktext in G.KINDS:
                 for c in (CONTEXTS if name.startswith('vf_canary') else ('root', 'map-key', 'aliased', 'merge', 'set-member')):
                     doc = G.in_context(c, '%s %s' % (tag, ktext))
-                    check_doc(T, 'canary-names', {'doc': doc, 'tag': tag, 'kind': kn, 'context': c}, doc, 'noncore', profile=True)
+                    check_doc(T, 'canary-names', {'doc': doc, 'tag': tag, 'kind': kn, 'context': c, 'primed': 'unsafe' if _is_canary(name) else 'full'}, doc, 'noncore', profile=True,
+                              prime=PRIME_UNSAFE if _is_canary(name) else PRIME_FULL)
         T.sample('canary-names', {'doc': doc})
     elif kind == 'registered':
         n = 0
@@ -167,7 +186,7 @@ def run_job(job, T):
             for kn, ktext in G.KINDS:
                 for c in ('root', 'map-key', 'aliased', 'merge', 'omap-entry'):
                     doc = G.in_context(c, '!<%s> %s' % (full, ktext))
-                    check_doc(T, 'registered-tags', {'doc': doc, 'tag': short, 'kind': kn, 'context': c}, doc, tk, profile=True)
+                    check_doc(T, 'registered-tags', {'doc': doc, 'tag': short, 'kind': kn, 'context': c}, doc, tk, profile=True, prime=PRIME_FULL)
                     n += 1
         T.count('registered_tags_enumerated', len(G.registered_tags(yaml.constructor.BaseConstructor)))
         T.sample('registered-tags', {'doc': doc})
@@ -184,7 +203,7 @@ def run_job(job, T):
                 for kn, ktext in kinds:
                     for c in ('root', 'map-key'):
                         doc = G.in_context(c, '%s %s' % (tag, ktext))
-                        check_doc(T, 'module-names', {'doc': doc, 'tag': tag, 'kind': kn, 'context': c}, doc, 'noncore', profile=False)
+                        check_doc(T, 'module-names', {'doc': doc, 'tag': tag, 'kind': kn, 'context': c}, doc, 'noncore', profile=False, prime=PRIME_FULL)
         if doc:
             T.sample('module-names', {'doc': doc})
     else:
@@ -198,7 +217,8 @@ def finalize(agg, tier, seed):
 
 
 def replay(sub, case, T):
-    check_doc(T, sub, case, case['doc'], kind_of_tag(case.get('tag', '')) if case.get('tag') in CORE_TAGS | SPECIAL_TAGS else 'noncore', profile=True)
+    check_doc(T, sub, case, case['doc'], kind_of_tag(case.get('tag', '')) if case.get('tag') in CORE_TAGS | SPECIAL_TAGS else 'noncore', profile=True,
+              prime=PRIME_UNSAFE if case.get('primed') == 'unsafe' else PRIME_FULL)
 
 
 def snippet(sub, case):
